@@ -32,6 +32,7 @@ With a veto the auto clause does not apply (the property says "no veto"); the ve
 import DastardV.Lemmas.LevelGlobal
 import DastardV.Lemmas.AutoGlobal
 import DastardV.Lemmas.PipeProj
+import DastardV.Lemmas.Reconf
 namespace DastardV.C02
 open Trig
 
@@ -237,6 +238,46 @@ theorem C02_auto_gap_after_reconfigure {c c' : Chan} {ts : TS} {npre nsamp f0 : 
 
 /-- the effective delay is the configured one, or one record if that is longer -/
 theorem autoD_def (ts : TS) (nsamp : Int) : autoD ts nsamp = if ts.autoDelay < nsamp then nsamp else ts.autoDelay := rfl
+
+/-! ### After a reconfiguration: the retained samples are searched again
+
+`ConfigureTriggers` keeps the buffer and forgets the hold-off reference, so the next block is searched
+from `npre` samples into the RETAINED buffer.  By `runChan_prepend` the run after the request is a fresh
+run on the stream `B ++ segs.flatten` (`B` = the retained samples, whose first frame is `fB`), so all
+three clauses hold for that whole stream — in particular for the tail of the earlier stream that could
+not be searched before the request (its last `nsamp − npre` samples). -/
+
+/-- the channel right after an accepted ConfigureTriggers, viewed with an empty buffer, is `Fresh` -/
+theorem fresh_of_reconfigured {c : Chan} {ts : TS} {npre nsamp fB : Int} (hts : c.ts = ts) (hnpre : c.npre = npre)
+    (hnsamp : c.nsamp = nsamp) (hsync : c.emt.nsamp = nsamp) (hlast : c.lastTrig + nsamp ≤ fB) :
+    Fresh { c with buf := [] } ts npre nsamp fB :=
+  ⟨rfl, hts, hnpre, hnsamp, hsync, hlast⟩
+
+/-- **C02 after a reconfiguration, including the not-yet-searched tail.**  `c` is the channel as an
+accepted ConfigureTriggers leaves it, holding the retained samples `c.buf` whose first frame is `fB`;
+the next blocks are `seg :: segs`.  On the stream `c.buf ++ (seg :: segs).flatten` the edge, level and
+auto clauses hold exactly as from a fresh start. -/
+theorem C02_after_reconfigure_full {c c' : Chan} {ts : TS} {npre nsamp fB : Int} {tp : Nat → Int × Int} {n : Nat}
+    {sg : Bool} {zt : ZT} (hv : 3 ≤ npre ∧ npre < nsamp) (hem : ts.edgeMulti = false)
+    (hts : c.ts = ts) (hnpre : c.npre = npre) (hnsamp : c.nsamp = nsamp) (hsync : c.emt.nsamp = nsamp)
+    (hlast : c.lastTrig + nsamp ≤ fB)
+    (seg : List Nat) (segs : List (List Nat)) {tr : List Int}
+    (hrun : runChan zt tp sg n c (fB + c.buf.length) (seg :: segs) = some (c', tr)) :
+    let S := c.buf ++ (seg :: segs).flatten
+    (ts.edge = true → ∀ p : Int, npre ≤ p → p + (nsamp - npre) < (S.length : Int) →
+      edgeAtG (cfgChan ts sg) S p = true → Cov nsamp fB tr p) ∧
+    (ts.level = true → ∀ p : Int, npre ≤ p → p + (nsamp - npre) < (S.length : Int) →
+      levelAtG (cfgChan ts sg) S p = true → Near nsamp fB tr p) ∧
+    (ts.auto = true → ts.autoVeto = 0 → ∀ a b, [a, b] <:+: tr → a ≤ b ∧ b - a ≤ autoD ts nsamp + nsamp) := by
+  obtain ⟨tp', hpre⟩ := runChan_prepend zt tp sg n c (fB + c.buf.length) seg segs
+  rw [hpre, show fB + (c.buf.length : Int) - c.buf.length = fB by omega] at hrun
+  have hfresh := fresh_of_reconfigured (fB := fB) hts hnpre hnsamp hsync hlast
+  have hS : c.buf ++ (seg :: segs).flatten = ((c.buf ++ seg) :: segs).flatten := by simp
+  simp only
+  rw [hS]
+  refine ⟨fun hedge => C02_edge_complete hv hem hedge hfresh _ hrun,
+    fun hlevel => C02_level_complete hv hem hlevel hfresh _ hrun,
+    fun hauto hveto => C02_auto_gap hv hem hauto hveto hfresh _ hrun⟩
 
 /-! ### The same at the level of the whole source
 
